@@ -989,7 +989,7 @@ REAL_CLASSES = ['LinearGAM', 'LinearGAM', 'LinearGAM-known', 'PoissonGAM', 'Logi
 def gen_real_specs(ctx, lits):
     rng = ctx.subrng('real')
     quick = ctx.tier == 'quick'
-    n_cases = 160 if quick else 2200
+    n_cases = 120 if quick else 2200
     specs = []
     # a small full product first: class kind x fitted x keep_best (never only the defaults)
     base = []
